@@ -151,7 +151,7 @@ def check_contract(ctx, a, b, axa, axb, mode, tag, via="function"):
 
 def case_random(ctx, rng):
     sr = ctx.sr
-    sym = rng.choice(gen.SYMS5)
+    sym = gen.pick_sym(rng)
     vals = gen.Values(rng, "int", rng.choice(["float64", "float64", "complex128"]))
     r = rng.random()
     if r < 0.25:
@@ -162,7 +162,7 @@ def case_random(ctx, rng):
     lk = rng.choice(["int", "int", "tuple", "str"])
     ctx.count("labels", lk)
     a, b, axa, axb = gen.contractible_pair(sr, rng, sym, True, maxnd=3 if rng.random() < 0.85 else 4, values=vals, maxd=2, p_ragged=0.1, p_hist=0.1, p_mixclass=0.08, label_kind=lk)
-    if rng.random() < 0.25:
+    if rng.random() < 0.25 and any(R.par(sym, c) for c in gen.POOL[sym]):
         # operands that already carry several labels (outer products with a one-element odd
         # tensor: the product is even / odd with two labels)
         def dress(x, lab, front):
@@ -300,7 +300,7 @@ def case_huge_dense(ctx, rng):
 
 def case_matmul(ctx, rng):
     sr = ctx.sr
-    sym = rng.choice(gen.SYMS5)
+    sym = gen.pick_sym(rng)
     vals = gen.Values(rng, "int")
     shp = rng.choice([(1, 1), (1, 2), (2, 1), (2, 2)])
     k = gen.rand_index(sr, rng, sym)
@@ -343,7 +343,7 @@ def case_trace(ctx, rng):
     import autoray as ar
 
     sr = ctx.sr
-    sym = rng.choice(gen.SYMS5)
+    sym = gen.pick_sym(rng)
     vals = gen.Values(rng, "int")
     ix = gen.rand_index(sr, rng, sym)
     x = gen.make_array(sr, rng, sym, [ix, gen.conj_index(sr, ix)], charge=R.identity(sym), fermionic=True, values=vals)
@@ -365,7 +365,7 @@ def case_trace(ctx, rng):
 
 def case_einsum(ctx, rng):
     sr = ctx.sr
-    sym = rng.choice(gen.SYMS5)
+    sym = gen.pick_sym(rng)
     vals = gen.Values(rng, "int")
     npairs = rng.randint(0, 2)
     nfree = rng.randint(0, 2)
